@@ -63,6 +63,9 @@ func LibGoroutines() map[string]string {
 		buf = make([]byte, 2*len(buf))
 	}
 	out := map[string]string{}
+	if !bytes.Contains(buf, []byte("\ncreated by github.com/akramarenkov/cqos")) {
+		return out
+	}
 	for _, g := range bytes.Split(buf, []byte("\n\n")) {
 		s := string(g)
 		// "started by the discipline" = created by a function of the module under test
